@@ -30,11 +30,17 @@ type C14Scenario struct {
 type C14Run struct {
 	Kind      string           `json:"kind"`
 	Decisions []simrt.Decision `json:"seam_decisions"`
+	// Decoy, if present, is a related scenario queried (same kind of query) right before this
+	// run: the history another client of the library would create.
+	Decoy *C14Scenario `json:"preceded_by,omitempty"`
 	order     *simrt.OrderSource
 	ids       []string
 	set       map[string]bool
 	err       string
 	panicked  string
+	aborted   bool
+	steps     int64
+	budget    int64
 }
 
 type C14Replay struct {
@@ -59,6 +65,10 @@ func (sc *C14Scenario) exec(r *C14Run) {
 		return
 	}
 	simrt.SetRunOrder(r.order)
+	if r.budget == 0 {
+		r.budget = stepBudgetPerRun
+	}
+	simrt.SetStepBudget(r.budget)
 	simrt.Active = true
 	func() {
 		defer func() {
@@ -79,6 +89,9 @@ func (sc *C14Scenario) exec(r *C14Run) {
 	}()
 	simrt.Active = false
 	simrt.SetRunOrder(nil)
+	r.aborted = simrt.Aborted
+	r.steps = simrt.Steps
+	simrt.SetStepBudget(0)
 	r.set = map[string]bool{}
 	for _, id := range r.ids {
 		r.set[id] = true
@@ -119,7 +132,7 @@ func judgeC14(sc *C14Scenario, runs []*C14Run) (map[string]string, c14Info) {
 	}
 	var lines, meas, skip []*C14Run
 	for _, r := range runs {
-		if r.err != "" || r.panicked != "" {
+		if r.err != "" || r.panicked != "" || r.aborted {
 			continue // outcome on valid input is C15/C16 territory; counted by the caller
 		}
 		switch r.Kind {
@@ -389,8 +402,38 @@ func truncLat(lat float64) float64 {
 	return math.Ceil(lat*1e10) / 1e10
 }
 
+func (sc *C14Scenario) decoy(r *simrt.Rand) *C14Scenario {
+	d := *sc
+	switch r.Intn(5) {
+	case 0:
+		d.VZ = max64(0, min64(35, sc.VZ+[]int64{-2, -1, 1, 2}[r.Intn(4)]))
+	case 1:
+		d.HZ = max64(5, min64(35, sc.HZ+[]int64{-1, 1}[r.Intn(2)]))
+	case 2:
+		d.Radius = sc.Radius * []float64{0, 0.5, 1.5}[r.Intn(3)]
+	case 3:
+		d.End[2] += 3 * float64(pow2(25)) / float64(pow2(sc.VZ))
+	default:
+		d.Start, d.End = sc.End, sc.Start
+	}
+	if !d.valid() || d.Radius > sc.Radius*1.5+1e-9 && sc.Radius > 0 {
+		return nil
+	}
+	return &d
+}
+
+func execC14Decoy(d *C14Scenario, kind string) {
+	if d == nil {
+		return
+	}
+	r := &C14Run{Kind: kind, order: simrt.NewAscOrder(), budget: 1_500_000}
+	d.exec(r)
+}
+
 func evalC14(rp *C14Replay) map[string]string {
+	simrt.RestoreGlobals()
 	for _, r := range rp.Runs {
+		execC14Decoy(r.Decoy, r.Kind)
 		r.order = simrt.NewReplayOrder(r.Decisions)
 		r.ids, r.set, r.err, r.panicked = nil, nil, "", ""
 		rp.Scenario.exec(r)
@@ -409,7 +452,9 @@ func genC14Scenario(g *Gen, tier string) C14Scenario {
 	if g.R.Chance(1, 12) { // clause 7
 		switch g.R.Intn(3) {
 		case 0:
-			sc.Radius = -math.Abs(sc.Radius) - float64(g.R.Intn(3))*0.5 - 1e-9
+			// same magnitude as a valid radius of this scenario, so that an implementation that
+			// wrongly accepts it does ordinary work instead of exploding
+			sc.Radius = -math.Max(math.Abs(sc.Radius), 0.1*voxelWidthM(max64(sc.HZ, 5), sc.Start[1]))
 			sc.Kind = "negative"
 		case 1:
 			sc.HZ = []int64{-1, 36, 40, -7}[g.R.Intn(4)]
@@ -448,7 +493,15 @@ func (w *Worker) runC14Case(idx int64) {
 	}
 	caseHash := simrt.DeepHash(sc)
 	nonAsc := 0
-	for _, r := range runs {
+	simrt.RestoreGlobals() // every case starts from the package state of a fresh process
+	for i, r := range runs {
+		if i > 0 && sc.valid() && g.R.Chance(1, 3) {
+			if r.Decoy = sc.decoy(g.R); r.Decoy != nil {
+				execC14Decoy(r.Decoy, r.Kind)
+				w.St.Evaluations++
+				w.St.FaultKinds["intervening_call_on_related_scenario"]++
+			}
+		}
 		sc.exec(r)
 		r.Decisions = r.order.Decisions
 		w.St.Evaluations++
@@ -458,8 +511,13 @@ func (w *Worker) runC14Case(idx int64) {
 		if r.err != "" && sc.valid() {
 			w.St.Probes["error_on_valid_scenario"]++
 		}
-		if r.panicked != "" {
+		if r.aborted {
+			w.St.Probes["runs_cut_short_by_step_budget"]++
+		} else if r.panicked != "" {
 			w.St.Probes["panic"]++
+		}
+		if r.steps > w.St.Extra["worst_steps_per_run"] {
+			w.St.Extra["worst_steps_per_run"] = r.steps
 		}
 	}
 	w.St.FaultKinds["repeat_call"] += int64(len(runs) - 3)
@@ -507,7 +565,7 @@ func (w *Worker) runC14Case(idx int64) {
 		}
 		rp := &C14Replay{Scenario: sc, Clause: cl}
 		for _, r := range runs {
-			rp.Runs = append(rp.Runs, &C14Run{Kind: r.Kind, Decisions: r.Decisions})
+			rp.Runs = append(rp.Runs, &C14Run{Kind: r.Kind, Decisions: r.Decisions, Decoy: r.Decoy})
 		}
 		rp, note := shrinkC14(rp)
 		var sites []string
@@ -559,6 +617,24 @@ func shrinkC14(rp *C14Replay) (*C14Replay, string) {
 			i++
 		}
 	}
+	// 1b. drop intervening calls
+	for ri := range cur.Runs {
+		if cur.Runs[ri].Decoy == nil {
+			continue
+		}
+		c := &C14Replay{Scenario: cur.Scenario, Clause: target}
+		for j, r := range cur.Runs {
+			n := &C14Run{Kind: r.Kind, Decisions: r.Decisions, Decoy: r.Decoy}
+			if j == ri {
+				n.Decoy = nil
+			}
+			c.Runs = append(c.Runs, n)
+		}
+		if fails(c) {
+			cur = c
+			steps++
+		}
+	}
 	// 2. drop seam decisions per run
 	for ri := range cur.Runs {
 		ds := cur.Runs[ri].Decisions
@@ -568,9 +644,9 @@ func shrinkC14(rp *C14Replay) (*C14Replay, string) {
 				c := &C14Replay{Scenario: cur.Scenario, Clause: target}
 				for j, r := range cur.Runs {
 					if j == ri {
-						c.Runs = append(c.Runs, &C14Run{Kind: r.Kind, Decisions: nd})
+						c.Runs = append(c.Runs, &C14Run{Kind: r.Kind, Decisions: nd, Decoy: r.Decoy})
 					} else {
-						c.Runs = append(c.Runs, &C14Run{Kind: r.Kind, Decisions: r.Decisions})
+						c.Runs = append(c.Runs, &C14Run{Kind: r.Kind, Decisions: r.Decisions, Decoy: r.Decoy})
 					}
 				}
 				if fails(c) {
